@@ -136,6 +136,60 @@ func c04Reused(c *core.C, tok *lib.Token, a, b ast.AuthContent) {
 	c.Count("reused_authorizer_sequences", 1)
 }
 
+// c04NonBoolean: an expression that evaluates, without error, to something that is not a boolean
+// (an integer, a string length, a set) makes nothing true: a check made of it fails, an allow
+// policy made of it does not match. (Whether a library treats it as false or as an error is
+// left open - the reference gives no verdict there - but "satisfied" is excluded.)
+func c04NonBoolean(c *core.C, tok *lib.Token) {
+	r := c.R
+	nb := []ast.Expr{
+		{ast.OV(ast.Int(1)), ast.OV(ast.Int(2)), ast.OB(int(ast.BAdd))},
+		{ast.OV(ast.Str("abc")), ast.OU(int(ast.ULength))},
+		{ast.OV(ast.SetOf(ast.Int(1), ast.Int(2))), ast.OV(ast.SetOf(ast.Int(2))), ast.OB(int(ast.BIntersection))},
+		{ast.OV(ast.Str("a")), ast.OV(ast.Str("b")), ast.OB(int(ast.BAdd))},
+		{ast.OV(ast.Int(0))},
+		{ast.OV(ast.Str("true"))},
+	}[r.Intn(6)]
+	q := ast.Rule{Head: ast.P("query"), Exprs: []ast.Expr{nb}}
+	cases := []struct {
+		name string
+		a    ast.AuthContent
+	}{
+		{"check", ast.AuthContent{Checks: []ast.Check{{Queries: []ast.Rule{q}}}, Policies: []ast.Policy{allowAll}}},
+		{"allow-policy", ast.AuthContent{Policies: []ast.Policy{{Allow: true, Queries: []ast.Rule{q}}}}},
+	}
+	base := lib.Observe(tok.B, tok.Pub, ast.AuthContent{Policies: []ast.Policy{allowAll}}, nil)
+	for _, k := range cases {
+		c.Eval(1)
+		o := lib.Observe(tok.B, tok.Pub, k.a, nil)
+		if o.Class == lib.OK {
+			c.Violate("non-boolean-expression-satisfies/"+k.name, fmt.Sprintf("%s whose only expression is %s (not a boolean): the request is authorized", k.name, nb.Key()), map[string]any{"token_blocks": tok.Blocks, "expression": nb.Key(), "authorizer": k.a, "same_token_with_allow_all": base.Class})
+		}
+		c.Count("non_boolean_expression_cases", 1)
+	}
+}
+
+// c04BlockFeedsAuthorizerRule: the scope of a later block is the authority-level closure plus the
+// block's OWN facts and rules. An authorizer rule therefore never fires on a fact that only a
+// later block carries: the block's check that asks for the rule's head fails, and the verdict is
+// the reference's for the content built here.
+func c04BlockFeedsAuthorizerRule(c *core.C, tok *lib.Token, a ast.AuthContent) {
+	if len(tok.Blocks) < 1 {
+		return
+	}
+	x := ast.Var("x")
+	blocks := append([]ast.Block{}, tok.Blocks...)
+	carrier := ast.Block{Facts: []ast.Pred{ast.P("member_only_in_block", ast.Str("alice"))}, Checks: []ast.Check{{Queries: []ast.Rule{{Head: ast.P("query"), Body: []ast.Pred{ast.P("admin_by_authorizer_rule", ast.Str("alice"))}}}}}}
+	blocks = append(blocks, carrier)
+	b := ast.AuthContent{Facts: a.Facts, Rules: append(append([]ast.Rule{}, a.Rules...), ast.Rule{Head: ast.P("admin_by_authorizer_rule", x), Body: []ast.Pred{ast.P("member_only_in_block", x)}}), Checks: a.Checks, Policies: a.Policies}
+	t2, err := buildScenarioToken(c.Seed, fmt.Sprintf("c04-bf-%d-%d", c.Idx, len(blocks)), blocks)
+	if err != nil {
+		return
+	}
+	c04Check(c, "block-fact-feeds-authorizer-rule", t2, b, false)
+	c.Count("block_feeds_authorizer_rule_cases", 1)
+}
+
 // perturb derives neighbours that separate the usual inversions.
 func c04Perturb(r *rand.Rand, u *gen.Universe, a ast.AuthContent) (string, ast.AuthContent) {
 	b := ast.AuthContent{Facts: a.Facts, Rules: a.Rules}
@@ -261,6 +315,8 @@ func c04Run(c *core.C) {
 		}
 		_, nb := c04Perturb(r, s.U, s.Auth)
 		c04Reused(c, tok, s.Auth, nb)
+		c04NonBoolean(c, tok)
+		c04BlockFeedsAuthorizerRule(c, tok, s.Auth)
 		if gen.AuthPrintable(a) {
 			c04Check(c, "via-text", tok, a, true)
 			c.Count("via_text", 1)
